@@ -31,6 +31,7 @@ def main (args : List String) : IO UInt32 := do
     Driver.runPure (Driver.Naming.step (if e == some "current" then .current else .fixed)); return 0
   | ["naming-fixed"] => Driver.runPure (Driver.Naming.step .fixed); return 0
   | ["naming-current"] => Driver.runPure (Driver.Naming.step .current); return 0
+  | ["naming-anchored"] => Driver.runPure (Driver.Naming.step .anchored); return 0
   | ["suppa-toy"] => Driver.run ({} : Driver.SuppaToy.St) Driver.SuppaToy.step; return 0
   | ["multi-run"] => Driver.run () Driver.Runs.step; return 0
   | ["engine-summaries"] => Driver.run ({} : Driver.EngineSummary.St) Driver.EngineSummary.step; return 0
